@@ -173,13 +173,52 @@ Print Assumptions C14_resort_sorted.
 Theorem C14_resort_prefix_refuted :
   exists k j l, (j < length l)%nat /\ sortedb (uid_lt k) (remove_nth j l) = true /\ sortedb (uid_lt k) (resort_prefix (uid_lt k) j l) = false.
 Proof.
-  (* three user ids marked primary; the middle one has just received a revocation as its newest self-signature *)
+  (* three user ids marked primary; the middle one has just been re-certified without the primary mark (a revocation by the key
+     no longer counts as its self-signature: repair 812bc0f) *)
   exists 1, 1%nat,
     [ {| u_isuid := true; u_content := [3]; u_sigs := [ps (mk 1 19 3 None true 3)] |};
-      {| u_isuid := true; u_content := [2]; u_sigs := [ps (mk 1 19 2 None true 2); ps (mk 1 48 10 None false 4)] |};
+      {| u_isuid := true; u_content := [2]; u_sigs := [ps (mk 1 19 2 None true 2); ps (mk 1 19 10 None false 4)] |};
       {| u_isuid := true; u_content := [1]; u_sigs := [ps (mk 1 19 1 None true 1)] |} ].
   repeat split; vm_compute; auto.
 Qed.
+
+(* ------------------------------------------------------------------ the identity order reads PGPUID.selfsig (repair 812bc0f) *)
+(* selfsig is the newest self-CERTIFICATION: attaching a certification revocation, an attestation or any third-party signature to an
+   identity changes neither its primary mark nor its place among the identities of the key *)
+Theorem C14_uid_order_ignores_noncert : forall K a b s,
+  (is_cert_type (c_type (s_core s)) = false \/ c_issuer (s_core s) <> K) ->
+  uid_is_primary K (uid_or_sig a s) = uid_is_primary K a
+  /\ uid_lt K (uid_or_sig a s) b = uid_lt K a b /\ uid_lt K b (uid_or_sig a s) = uid_lt K b a.
+Proof. exact uid_lt_ignores_noncert. Qed.
+Print Assumptions C14_uid_order_ignores_noncert.
+(* before that repair the newest signature of any type by the key was taken: a revocation (an attestation) replaced the
+   certification as "self-signature", today it does not *)
+Theorem C14_selfsig_old_refuted :
+  exists K u r t, is_cert_type (c_type (s_core r)) = false /\ is_cert_type (c_type (s_core t)) = false
+    /\ selfsig_old K (uid_or_sig u r) = Some r /\ selfsig_old K (uid_or_sig u t) = Some t /\ selfsig_old K u <> Some r
+    /\ selfsig K (uid_or_sig u r) = selfsig K u /\ selfsig K (uid_or_sig u t) = selfsig K u /\ selfsig K u = selfsig_old K u.
+Proof.
+  exists 1, {| u_isuid := true; u_content := [2]; u_sigs := [ps (mk 1 19 2 None true 2)] |},
+         (ps (mk 1 T_CERT_REV 10 None false 4)), (ps (mk 1 T_ATTESTATION 10 None false 5)).
+  repeat split; vm_compute; congruence.
+Qed.
+
+(* the same through PGPKey.parse: two identities marked primary, the NEWER one revoked afterwards.  It stays the first identity
+   (primary, newer certification); with the old rule the revocation was its self-signature, it lost the primary mark and went last -
+   and likewise for an attestation *)
+Definition blob_revoked (typ : Z) : list packet :=
+  [PKey true true true 1; PUid true [1]; PSig (ps (mk 1 19 100 None true 1));
+   PUid true [2]; PSig (ps (mk 1 19 101 None true 2)); PSig (ps (mk 1 typ 102 None false 3))].
+Theorem C14_import_selfsig_old_refuted : forall typ, typ = T_CERT_REV \/ typ = T_ATTESTATION ->
+  exists a b, import (blob_revoked typ) = Ok [a] /\ map u_content (p_uids a) = [[2]; [1]]
+    /\ map (uid_is_primary 1) (p_uids a) = [true; true]
+    /\ import_old_selfsig (blob_revoked typ) = Ok [b] /\ map u_content (p_uids b) = [[1]; [2]]
+    /\ map (uid_is_primary_with selfsig_old 1) (p_uids b) = [true; false].
+Proof.
+  intros typ [->| ->]; (eexists; eexists; split; [vm_compute; reflexivity|]; split; [reflexivity|]; split; [reflexivity|];
+    split; [vm_compute; reflexivity|]; split; reflexivity).
+Qed.
+Print Assumptions C14_import_selfsig_old_refuted.
 
 (* ------------------------------------------------------------------ a blob that repeats a key (repair 84a9ce0) *)
 (* A, B, A again followed by a user id and a subkey: both attach to the key they follow (the dictionary entry of A, which keeps
